@@ -63,7 +63,12 @@ impl MaterializedSink {
         let meta = self
             .store
             .append_batch(self.schema_guard.snapshots(), batch)?;
-        self.high_water = meta.high_water_mark;
+        // Frames are appended in arrival order (one per shard/source batch), so a later
+        // frame can carry a lower mark than an earlier one: never move the mark backwards.
+        self.high_water.advance(
+            meta.high_water_mark.timestamp,
+            meta.high_water_mark.event_id,
+        );
         let rows_added = meta.row_count as u64;
         let bytes_added = meta.compressed_len as u64;
         self.total_rows = self.total_rows.saturating_add(rows_added);
@@ -89,6 +94,10 @@ impl MaterializedSink {
         self.schema_guard.snapshots()
     }
 
+    pub fn store(&self) -> &MaterializedStore {
+        &self.store
+    }
+
     pub fn into_store(self) -> MaterializedStore {
         self.store
     }
@@ -109,9 +118,14 @@ impl MaterializedSink {
     }
 
     fn bootstrap_from_manifest(&mut self) {
-        if let Some(last) = self.store.frames().last() {
-            self.high_water = last.high_water_mark;
+        let mut high_water = HighWaterMark::default();
+        for frame in self.store.frames() {
+            high_water.advance(
+                frame.high_water_mark.timestamp,
+                frame.high_water_mark.event_id,
+            );
         }
+        self.high_water = high_water;
 
         self.recompute_totals();
         self.last_rows_appended = 0;
